@@ -28,6 +28,7 @@ type opqType struct {
 var opqFuncs = map[int]func(){}
 var opqChans = map[int]chan int{}
 var opqPtrs = map[int]*opqPtrT{}
+var opqErrs = map[int]error{}
 
 var opqTypes = []opqType{
 	0:  {"main.opqStruct", true, func(id int) interface{} { return opqStruct{A: id, B: "x"} }},
@@ -65,7 +66,12 @@ var opqTypes = []opqType{
 	17: {"[2]int", true, func(id int) interface{} { return [2]int{id, id} }},
 	18: {"complex128", true, func(id int) interface{} { return complex(float64(id), 1) }},
 	19: {"[]interface {}", true, func(id int) interface{} { var s []interface{}; return s }}, // typed nil slice: JSON-typed, see note
-	20: {"error", true, func(id int) interface{} { return fmt.Errorf("e%d", id) }},
+	20: {"error", true, func(id int) interface{} {
+		if opqErrs[id] == nil {
+			opqErrs[id] = fmt.Errorf("e%d", id)
+		}
+		return opqErrs[id]
+	}},
 	21: {"main.opqUncmp", true, func(id int) interface{} { return opqUncmp{F: []int{id}} }},
 }
 
